@@ -23,8 +23,9 @@ RULE = ('networks with 1-5 nodes (serial / assembly / distribution / random DAG,
         'unset / None / scalar / product-keyed dict (all or some of the node\'s products as keys; entries numbers, or explicit None for some / all keys '
         '= "no value for this product at this node", which get_attribute() returns in preference to the product-level value, then usually with a '
         'different value of the same attribute set on the product so that the entry decides what the simulator sees; or the empty dict); lead times; GSM attributes; inventory policy (BS, sS, rQ, FQ, EBS, BEBS, None type) as singleton, '
-        'product-keyed dict or product-level object; demand source (N, P, UD, UC, NB, D, CD) likewise; disruption process (default, None, Markov or '
-        'explicit, OP/SP/TP/RP) ; with and without saved state variables (a short simulation is run first). For every network: '
+        'product-keyed dict or product-level object; demand source (N, P, UD, UC, NB, D, CD) likewise, product-keyed dicts also with explicit None entries '
+        '(= no external demand for that product at the node; usually hiding a demand source set on the product); disruption process (default, None, Markov or '
+        'explicit, OP/SP/TP/RP; product-keyed with None entries in non-simulated networks) ; with and without saved state variables (a short simulation is run first). For every network: '
         'to_dict->from_dict, to_dict->json->from_dict, save_instance->load_instance (with / without state variables); histories on one dict object '
         '(d = to_dict(); from_dict(d); simulate the result; from_dict(d) again: both results equal the original and simulate like it, d itself is '
         'unchanged by being read, a later to_dict() equals d) and on one file record (second load of the same file; the loaded network saved over '
@@ -184,7 +185,12 @@ def gen_spec(rng, sim=None, multi=None, nmax=5):
             spec['policy'][i] = gen_policy(rng, sim)
         if not succs[i] or rng.random() < 0.15:
             if prods and rng.random() < 0.6:
-                spec['demand'][i] = {'pk': {str(k): gen_demand(rng, T) for k in prods}}
+                pk = {str(k): gen_demand(rng, T) for k in prods}
+                # an entry may be an explicit None = "no external demand for this product at this node" (the simulator tests for it);
+                # like a plain None entry it is returned by get_attribute() in preference to the product's own demand source
+                if rng.random() < 0.3:
+                    for k in rng.sample(prods, rng.randint(1, len(prods))): pk[str(k)] = 'None'
+                spec['demand'][i] = {'pk': pk}
             else:
                 spec['demand'][i] = gen_demand(rng, T)
         elif rng.random() < 0.1:
@@ -192,6 +198,8 @@ def gen_spec(rng, sim=None, multi=None, nmax=5):
         spec['disruption'][i] = gen_disruption(rng, T)
         if not sim and prods and spec['disruption'][i] not in (None, 'None') and rng.random() < 0.4:
             spec['disruption'][i] = {'pk': {str(k): (lambda g: g if isinstance(g, dict) else {'disruption_type': 'SP'})(gen_disruption(rng, T)) for k in prods}}
+            if rng.random() < 0.5:          # None entries (product-keyed disruption processes are not simulated at all: non-simulated specs only)
+                for k in rng.sample(prods, rng.randint(1, len(prods))): spec['disruption'][i]['pk'][str(k)] = 'None'
     for i in idx:
         for k in spec['products'][i]:
             pa = spec['prod_attrs'].setdefault(k, {})
@@ -208,6 +216,8 @@ def gen_spec(rng, sim=None, multi=None, nmax=5):
             d = spec['demand'].get(i)
             if isinstance(d, dict) and 'pk' not in d and len(spec['products'][i]) > 1 and rng.random() < 0.5 and 'demand_source' not in pa:
                 pa['demand_source'] = gen_demand(rng, T)
+            if isinstance(d, dict) and 'pk' in d and d['pk'].get(str(k)) == 'None' and 'demand_source' not in pa and rng.random() < 0.6:
+                pa['demand_source'] = gen_demand(rng, T)          # hidden at node i by the node's None entry for k
     return spec
 
 
@@ -230,7 +240,19 @@ def pk_classes(spec):
                     if x is None and (G(spec['prod_attrs'], int(k)) or {}).get(a) is not None:
                         out.add('pk_dict_None_entry_hides_product_level_value'); out.add('pk_None_entry_hides_product_value:%s' % a)
             if set(pk) != {str(k) for k in (G(spec['products'], i) or [])}: out.add('pk_dict_partial_key_set')
+        d = G(spec['demand'], i)
+        if isinstance(d, dict) and 'pk' in d and 'None' in d['pk'].values():
+            out.add('demand_source_pk_dict_all_entries_None' if all(x == 'None' for x in d['pk'].values()) else 'demand_source_pk_dict_some_entries_None')
+            if any(x == 'None' and isinstance((G(spec['prod_attrs'], int(k)) or {}).get('demand_source'), dict) for k, x in d['pk'].items()):
+                out.add('demand_source_pk_None_entry_hides_product_level_demand_source')
+        dp = G(spec['disruption'], i)
+        if isinstance(dp, dict) and 'pk' in dp and 'None' in dp['pk'].values(): out.add('disruption_process_pk_dict_None_entry')
     return out
+
+
+def obj_none_entry(spec):
+    """the spec has a product-keyed OBJECT dict (demand source / disruption process) with a None entry"""
+    return any(c.startswith(('demand_source_pk_dict', 'disruption_process_pk_dict')) for c in pk_classes(spec))
 
 
 def G(d, i):
@@ -637,7 +659,10 @@ class Schema:
             elif tag[0] == 'noderef': v = ('VRef', None if raw is None else (raw.index if isinstance(raw, C['Node']) else int(raw)))
             elif tag[0] == 'obj':
                 if raw is None: v = ('VNoneObj',)
-                elif isinstance(raw, dict): v = ('VObjDict', [(int(k), self.obj_val(o, tag[1], tag[2])) for k, o in raw.items()])
+                elif isinstance(raw, dict):
+                    # Ser/Codec.v's `conforms` requires the entries of a product-keyed object dict to be objects
+                    if any(o is None for o in raw.values()): raise Unsupported('None entry in a product-keyed object dict')
+                    v = ('VObjDict', [(int(k), self.obj_val(o, tag[1], tag[2])) for k, o in raw.items()])
                 else: v = self.obj_val(raw, tag[1], tag[2])
             elif tag[0] == 'list':
                 if raw is None: v = ('VNoneObj',)
@@ -1149,7 +1174,8 @@ def explore(chk, sch, n, n_model, n_seq, do_model=True):
                         chk.fail(sig, msg, dict(case, csv_tagged=tagged))
             built.append((spec, net))
             if do_model and len(model_items) < n_model:
-                model_items.append((case, prune_state_vars(net, 2)))
+                if obj_none_entry(spec): chk.count('model_not_applicable_None_entry_in_object_dict')      # harness oracles only
+                else: model_items.append((case, prune_state_vars(net, 2)))
             chk.case(case, nontrivial(spec), key=json.dumps(jsonable(spec), sort_keys=True))
             for f in files:
                 if os.path.exists(f): os.remove(f)
@@ -1182,7 +1208,9 @@ def run(chk):
     chk.assume += ['numbers are exact rationals in the model; int/float distinction, NaN/Infinity, sets, callables (holding/stockout cost functions) are not modelled',
                    'dict keys are ints, None or strings that do not look numeric; strings are printable ASCII',
                    'attributes not declared in _DEFAULT_VALUES (purchase_cost, problem_specific_data, Policy.product_index) are outside the compared state',
-                   'product-level policy node links are not restored (documented)']
+                   'product-level policy node links are not restored (documented)',
+                   'entries of product-keyed object dicts are objects in the model (hypothesis `conforms` of Ser/Codec.v): networks whose demand_source / disruption_process '
+                   'dict has a None entry are judged by the harness oracles only (deep snapshot, get_attribute table, deep_equal_to, trajectory), not compared with the model']
     chk.proof()
     ok, log = coq_make(['Ser/Show.vo'])
     if not ok: chk.broken.append(('Ser/Show.vo', log[-800:]))
